@@ -184,18 +184,32 @@ package scan
 //@ pred vsDistinct(o) = forall i in 0..len(o.scanners) :: o.scanners[i].samples.owner == i
 //@ pred vsLoaded(o) = vsStruct(o) && vsMemo(o, 0, len(o.scanners)) && vsDistinct(o)
 //@ pred vsSought(o, from, to, bound) = forall i in from..to :: o.scanners[i].samples.lastSeek <= bound
-//@ pred vsShape(o) = o != nil && o.vectorPool != nil && o.step >= 0 && o.numSteps >= 1 && (o.step == 0 ==> o.numSteps == 1) && o.lookbackDelta >= 0
+//@ pred vsShape(o) = o != nil && o.vectorPool != nil && o.step >= 0 && o.numSteps >= 1 && (o.step == 0 ==> o.numSteps == 1) && o.lookbackDelta >= 0 && o.storage != nil && o.currentStep - o.offset >= -9223372036854775808
 //@ pred vsBatch(o, vectors, ts) = vsShape(o) && vsStruct(o) && vsDistinct(o) && !isnil(vectors) && fresh(vectors) && len(vectors) >= 1 && len(vectors) <= o.numSteps &&
 //@     (len(vectors) == o.numSteps || vectors[len(vectors)-1].T + o.step > o.maxt) &&
 //@     ts == old(o.currentStep) && o.currentStep == old(o.currentStep) && o.step == old(o.step) && o.numSteps == old(o.numSteps) && o.maxt == old(o.maxt)
 //@ pred vsVectors(o, vectors, ts) = forall k in 0..len(vectors) :: vectors[k].T == ts + k*o.step && vectors[k].T <= o.maxt &&
 //@     len(vectors[k].SampleIDs) == len(vectors[k].Samples) && allocated(vectors[k].SampleIDs) && allocated(vectors[k].Samples)
 //@ func (*vectorSelector).loadSeries
-//@   trusted series loading runs storage callbacks (Labels, Iterator) and wraps each iterator; assumed to establish the object invariant
-//@   requires o != nil && ctx != nil
+//@   requires o != nil && ctx != nil && o.storage != nil && o.vectorPool != nil && o.lookbackDelta >= 0 && o.currentStep - o.offset >= -9223372036854775808
+//@   requires not-yet-loaded-or-loaded: o.once != 0 ==> vsLoaded(o) && vsSought(o, 0, len(o.scanners), o.currentStep - o.offset)
 //@   panics may
-//@   assigns scan.vectorSelector.scanners, scan.vectorSelector.series, scan.vectorSelector.once, model.VectorPool.stepSize
-//@   ensures result == nil ==> vsLoaded(o) && vsSought(o, 0, len(o.scanners), o.currentStep - o.offset)
+//@   assigns scan.vectorSelector.scanners, scan.vectorSelector.series, scan.vectorSelector.once, model.VectorPool.stepSize, ghost owner
+//@   at line "o.series[i] = s.Labels()" set o.scanners[i].samples.owner = i
+//@   ensures[C15] load-error-surfaces: ncalls("engstore.SeriesSelector.GetSeries") == 1 && callres("engstore.SeriesSelector.GetSeries", 1, 1) != nil ==> result != nil
+//@   ensures[C02,C18] one-scanner-per-series: result == nil ==> vsStruct(o)
+//@   ensures[C02] iterators-well-formed: result == nil ==> vsMemo(o, 0, len(o.scanners))
+//@   ensures[C02,C18] each-scanner-has-its-own-iterator: result == nil ==> vsDistinct(o)
+//@   ensures[C02] iterators-not-sought-beyond-the-cursor: result == nil ==> vsSought(o, 0, len(o.scanners), o.currentStep - o.offset)
+//@   ensures[C11,C17] series-loaded-once: old(o.once) != 0 ==> ncalls("engstore.SeriesSelector.GetSeries") == 0
+// The body of the loader is the once.Do closure; its loop invariant:
+//@ func (*vectorSelector).loadSeries$1
+//@   inline
+//@   loop 0 invariant shape: o != nil && o.vectorPool != nil && o.lookbackDelta >= 0 && len(o.scanners) == len(series) && len(o.series) == len(series) && fresh(o.scanners) && fresh(o.series) &&
+//@       (forall j in 0..len(series) :: series[j].Signature == j && series[j].Series != nil)
+//@   loop 0 invariant scanners-so-far: forall j in 0..rangeindex+1 :: o.scanners[j].samples != nil && o.scanners[j].signature == j && o.scanners[j].samples.delta == o.lookbackDelta &&
+//@       o.scanners[j].samples.owner == j && o.scanners[j].samples.lastSeek == -9223372036854775808 && allocated(o.scanners[j].samples) &&
+//@       memo_inv(o.scanners[j].samples.sn, o.scanners[j].samples.sT, o.scanners[j].samples.cur, o.scanners[j].samples.hasPrev, o.scanners[j].samples.lastSeek, o.scanners[j].samples.delta)
 //@ func (*vectorSelector).Next
 //@   refines model.VectorOperator.Next
 //@   requires ctx != nil && vsShape(o)
@@ -266,19 +280,40 @@ package scan
 //@ pred msNext(o, i, M) = o.scanners[i].samples.wlo <= M - o.selectRange && o.scanners[i].samples.whi < M && o.scanners[i].samples.blastSeek <= M &&
 //@     (o.scanners[i].samples.bdelta >= o.selectRange || M - o.scanners[i].samples.bdelta <= o.scanners[i].samples.whi + 1) &&
 //@     o.scanners[i].samples.bdelta >= imin(o.selectRange, o.step)
-//@ pred msShape(o) = o != nil && o.vectorPool != nil && !isnil(o.call) && o.step >= 0 && o.numSteps >= 1 && (o.step == 0 ==> o.numSteps == 1 && o.currentStep >= o.maxt) && o.selectRange >= 0
+//@ pred msShape(o) = o != nil && o.vectorPool != nil && !isnil(o.call) && o.step >= 0 && o.numSteps >= 1 && (o.step == 0 ==> o.numSteps == 1 && o.currentStep >= o.maxt) && o.selectRange >= 0 &&
+//@     o.storage != nil && o.funcExpr != nil && o.funcExpr.Func != nil && o.currentStep - o.offset - o.selectRange - 1 >= -9223372036854775808
 // Assumed of the range-function table (execution/function.Funcs): a sample that is not the
 // "no value" sentinel is stamped with the step time it was computed for.
 //@ extern field:execution/scan.matrixSelector.call(f) r
 //@   pure
 //@   ensures !(r.Point.T == function.InvalidSample.Point.T && feq(r.Point.V, function.InvalidSample.Point.V) && r.Point.H == function.InvalidSample.Point.H) ==> r.Point.T == f.StepTime
 //@ func (*matrixSelector).loadSeries
-//@   trusted series loading runs storage callbacks (Labels, Iterator), edits label copies and wraps each iterator; assumed to establish the object invariant
-//@   requires o != nil && ctx != nil
-//@   panics may
-//@   assigns scan.matrixSelector.scanners, scan.matrixSelector.series, scan.matrixSelector.once, model.VectorPool.stepSize
-//@   ensures result == nil ==> msStruct(o) && (forall i in 0..len(o.scanners) :: msBuf(o, i)) && (forall i in 0..len(o.scanners) :: msWin(o, i)) &&
+//@   requires o != nil && ctx != nil && o.storage != nil && o.vectorPool != nil && o.funcExpr != nil && o.funcExpr.Func != nil && o.selectRange >= 0 &&
+//@       o.currentStep - o.offset - o.selectRange - 1 >= -9223372036854775808
+//@   requires loaded-before: o.once != 0 ==> msStruct(o) && (forall i in 0..len(o.scanners) :: msBuf(o, i)) && (forall i in 0..len(o.scanners) :: msWin(o, i)) &&
 //@       (forall i in 0..len(o.scanners) :: msNext(o, i, o.currentStep - o.offset))
+//@   panics may
+//@   assigns scan.matrixSelector.scanners, scan.matrixSelector.series, scan.matrixSelector.once, model.VectorPool.stepSize, ghost bowner, ghost wlo, ghost whi
+//@   at line "o.series[i] = lbls" set o.scanners[i].samples.bowner = i
+//@   at line "o.series[i] = lbls" set o.scanners[i].samples.whi = o.currentStep - o.offset - o.selectRange - 1
+//@   at line "o.series[i] = lbls" set o.scanners[i].samples.wlo = o.currentStep - o.offset - o.selectRange
+//@   ensures[C15] load-error-surfaces: ncalls("engstore.SeriesSelector.GetSeries") == 1 && callres("engstore.SeriesSelector.GetSeries", 1, 1) != nil ==> result != nil
+//@   ensures[C03,C18] one-scanner-per-series-each-with-its-own-iterator: result == nil ==> msStruct(o)
+//@   ensures[C03] iterators-well-formed: result == nil ==> forall i in 0..len(o.scanners) :: msBuf(o, i)
+//@   ensures[C03,C07] no-points-carried-yet: result == nil ==> forall i in 0..len(o.scanners) :: msWin(o, i)
+//@   ensures[C03] buffers-reach-back-over-the-whole-range: result == nil ==> forall i in 0..len(o.scanners) :: msNext(o, i, o.currentStep - o.offset)
+//@   ensures[C11,C17] series-loaded-once: old(o.once) != 0 ==> ncalls("engstore.SeriesSelector.GetSeries") == 0
+// The body of the loader is the once.Do closure; its loop invariant (and, C17, the metric name is
+// dropped on a private copy of the storage's label set - precondition of DropMetricName):
+//@ func (*matrixSelector).loadSeries$1
+//@   inline
+//@   loop 0 invariant shape: o != nil && o.vectorPool != nil && o.funcExpr != nil && o.funcExpr.Func != nil && o.selectRange >= 0 && len(o.scanners) == len(series) && len(o.series) == len(series) &&
+//@       fresh(o.scanners) && fresh(o.series) && (forall j in 0..len(series) :: series[j].Signature == j && series[j].Series != nil) &&
+//@       o.currentStep - o.offset - o.selectRange - 1 >= -9223372036854775808
+//@   loop 0 invariant scanners-so-far: forall j in 0..rangeindex+1 :: o.scanners[j].samples != nil && o.scanners[j].signature == j && isnil(o.scanners[j].previousPoints) && len(o.scanners[j].previousPoints) == 0 &&
+//@       o.scanners[j].samples.bowner == j && o.scanners[j].samples.bdelta == o.selectRange && o.scanners[j].samples.blastSeek == -9223372036854775808 && allocated(o.scanners[j].samples) &&
+//@       o.scanners[j].samples.whi == o.currentStep - o.offset - o.selectRange - 1 && o.scanners[j].samples.wlo == o.currentStep - o.offset - o.selectRange &&
+//@       buf_inv(o.scanners[j].samples.bn, o.scanners[j].samples.bT, o.scanners[j].samples.bcur, o.scanners[j].samples.blo, o.scanners[j].samples.blastSeek, o.scanners[j].samples.bdelta)
 //@ func (*matrixSelector).Next
 //@   refines model.VectorOperator.Next
 //@   requires ctx != nil && msShape(o)
@@ -338,11 +373,3 @@ package scan
 //@   loop 2 invariant next-this2: currStep == 0 || o.step >= 1 ==> msNext(o, i, seriesTs - o.offset)
 //@   loop 2 invariant step-time-follows-the-previous-vector: (currStep >= 1 ==> seriesTs == vectors[currStep-1].T + o.step) && (currStep < len(vectors) ==> seriesTs == vectors[currStep].T)
 
-// loadSeries closure of the matrix selector, ownership only (C17): the metric name is dropped on a
-// private copy of the storage's label set.
-//@ func (*matrixSelector).loadSeries$1
-//@   requires o != nil && o.storage != nil && o.funcExpr != nil && o.funcExpr.Func != nil && o.vectorPool != nil
-//@   panics may
-//@   at function.DropMetricName assert[C17] storage-labels-are-copied-before-the-name-is-dropped: isnil($l) || $l.lowned
-//@   at line "o.scanners = make([]matrixScanner, len(series))" assume selector-returns-series: forall j in 0..len(series) :: series[j].Series != nil
-//@   loop 0 invariant (forall j in 0..len(series) :: series[j].Series != nil) && o != nil && o.funcExpr != nil && o.funcExpr.Func != nil && len(o.scanners) == len(series) && len(o.series) == len(series)
